@@ -52,6 +52,8 @@ type genProposal struct {
 	FundDL   int64
 	VoteDL   int64
 	Funders  []*Acct
+	Funded   int64
+	Voted    map[int]bool
 }
 
 type genDomain struct {
@@ -202,29 +204,56 @@ func (g *Gen) rewards() GenTx {
 }
 
 func (g *Gen) gov() GenTx {
-	if len(g.Proposals) == 0 || g.R.Intn(6) == 0 {
+	if len(g.Proposals) == 0 || g.R.Intn(7) == 0 {
 		a := g.acct()
-		types := []governance.ProposalType{governance.ProposalTypeGeneral, governance.ProposalTypeCodeChange, governance.ProposalTypeConfigUpdate}
-		t := types[g.R.Intn(3)]
+		types := []governance.ProposalType{governance.ProposalTypeGeneral, governance.ProposalTypeCodeChange, governance.ProposalTypeConfigUpdate, governance.ProposalTypeConfigUpdate}
+		t := types[g.R.Intn(len(types))]
 		p := &genProposal{ID: pid(fmt.Sprintf("prop-%d-%d", g.W.P.Seed, len(g.Proposals))), Type: t, Proposer: a, Created: g.Height,
-			FundDL: g.Height + g.W.P.FundingDeadline, VoteDL: g.Height + g.W.P.FundingDeadline + g.W.P.VotingDeadline}
+			FundDL: g.Height + g.W.P.FundingDeadline, VoteDL: g.Height + g.W.P.FundingDeadline + g.W.P.VotingDeadline, Voted: map[int]bool{}}
 		g.Proposals = append(g.Proposals, p)
 		cu := ""
 		if t == governance.ProposalTypeConfigUpdate {
-			cus := []string{"feeOption.minFeeDecimal:8", "onsOptions.perBlockFees:200000000000000", "feeOption.minFeeDecimal:9", "stakingOptions.maturityTime:3", "bad"}
+			cus := []string{"feeOption.minFeeDecimal:8", "feeOption.minFeeDecimal:18", "onsOptions.perBlockFees:200000000000000", "feeOption.minFeeDecimal:12",
+				"onsOptions.baseDomainPrice:500000000000000000000", "stakingOptions.maturityTime:3", "bad"}
 			cu = cus[g.R.Intn(len(cus))]
 		}
 		init := int64(1000000000 + g.R.Intn(3)*3000000000)
+		p.Funded = init
 		return g.mk("PROPOSAL_CREATE", "valid", &agov.CreateProposal{ProposalID: p.ID, ProposalType: t, Headline: "h", Description: "d", Proposer: a.Addr,
 			InitialFunding: action.Amount{Currency: "OLT", Value: *balance.NewAmount(init)}, FundingDeadline: p.FundDL,
 			FundingGoal: balance.NewAmount(10000000000), VotingDeadline: p.VoteDL, PassPercentage: 51, ConfigUpdate: cu}, a)
 	}
-	p := g.Proposals[g.R.Intn(len(g.Proposals))]
+	// mostly work on the newest proposals so that lifecycles complete
+	p := g.Proposals[len(g.Proposals)-1-g.R.Intn(min(len(g.Proposals), 2))]
+	if g.R.Intn(10) < 6 {
+		// drive the lifecycle forward
+		if p.Funded < 10000000000 {
+			a := g.acct()
+			p.Funders = append(p.Funders, a)
+			v := 10000000000 - p.Funded
+			if g.R.Intn(3) == 0 && v > 2000000000 {
+				v = 1000000000 * int64(1+g.R.Intn(int(v/1000000000)-1))
+			}
+			p.Funded += v
+			return g.mk("PROPOSAL_FUND", "to-goal", &agov.FundProposal{ProposalId: p.ID, FunderAddress: a.Addr, FundValue: action.Amount{Currency: "OLT", Value: *balance.NewAmount(v)}}, a)
+		}
+		for i, v := range g.W.Vals {
+			if g.Staked[i] && !p.Voted[i] {
+				p.Voted[i] = true
+				op := governance.OPIN_POSITIVE
+				if g.R.Intn(6) == 0 {
+					op = governance.OPIN_NEGATIVE
+				}
+				return g.mk("PROPOSAL_VOTE", "lifecycle", &agov.VoteProposal{ProposalID: p.ID, Address: v.Owner.Addr, ValidatorAddress: v.Key.Addr, Opinion: op}, v.Owner, v.Key)
+			}
+		}
+	}
 	switch g.R.Intn(12) {
 	case 0, 1, 2:
 		a := g.acct()
 		p.Funders = append(p.Funders, a)
 		v := int64(1000000000 * int64(1+g.R.Intn(9)))
+		p.Funded += v
 		return g.mk("PROPOSAL_FUND", "valid", &agov.FundProposal{ProposalId: p.ID, FunderAddress: a.Addr, FundValue: action.Amount{Currency: "OLT", Value: *balance.NewAmount(v)}}, a)
 	case 3, 4, 5, 6:
 		v := g.W.Vals[g.R.Intn(len(g.W.Vals))]
@@ -243,9 +272,19 @@ func (g *Gen) gov() GenTx {
 		a := g.acct()
 		return g.mk("EXPIRE_VOTES", "outsider", &agov.ExpireVotes{ProposalID: p.ID, ValidatorAddress: a.Addr}, a)
 	default:
-		a := g.acct()
-		return g.mk("PROPOSAL_FINALIZE", "outsider", &agov.FinalizeProposal{ProposalID: p.ID, ValidatorAddress: a.Addr}, a)
+		return g.FinalizeAny()
 	}
+}
+
+// FinalizeAny is a PROPOSAL_FINALIZE for a recent proposal sent by an ordinary account (the kind
+// is on the public router and its fee step charges nothing).
+func (g *Gen) FinalizeAny() GenTx {
+	if len(g.Proposals) == 0 {
+		return g.transfer()
+	}
+	p := g.Proposals[len(g.Proposals)-1-g.R.Intn(min(len(g.Proposals), 3))]
+	a := g.acct()
+	return g.mk("PROPOSAL_FINALIZE", "outsider", &agov.FinalizeProposal{ProposalID: p.ID, ValidatorAddress: a.Addr}, a)
 }
 
 func (g *Gen) evidence() GenTx {
